@@ -100,6 +100,20 @@ func main() {
 			{Backend: "bbolt", Shadow: false, Cache: "read", CacheSize: 64}, {Backend: "hashmap", Shadow: true, Cache: "none"}, {Backend: "hashmap", Shadow: false, Cache: "none"}} {
 			add(childSpec{Mode: "big", Cfg: c, NHist: 1, Big: cfg.N(2600, 5200), Build: "plain"}, to)
 		}
+		// wide histories: queries over 150-400 visible keys with full content comparison
+		wide := []cfgSpec{{Backend: "badger", Shadow: false, Cache: "none"}, {Backend: "badger", Shadow: true, Cache: "read", CacheSize: 64},
+			{Backend: "hashmap", Shadow: true, Cache: "none"}, {Backend: "bbolt", Shadow: false, Cache: "none"}, {Backend: "fstree", Shadow: true, Cache: "none"}}
+		if cfg.Thorough() {
+			wide = nil
+			for _, c := range allConfigs() {
+				if c.Cache != "delayed" {
+					wide = append(wide, c)
+				}
+			}
+		}
+		for _, c := range wide {
+			add(childSpec{Mode: "wide", Cfg: c, NHist: cfg.N(1, 4), Build: "plain"}, to)
+		}
 		if cfg.BinRace != "" {
 			add(childSpec{Mode: "iter", Build: "race", Rounds: cfg.N(200, 2000)}, to)
 			for _, c := range []cfgSpec{{Backend: "hashmap", Shadow: false, Cache: "delayed"}, {Backend: "hashmap", Shadow: true, Cache: "delayed"},
@@ -194,6 +208,13 @@ func finish(cfg vlib.Cfg, rep *vlib.Report) {
 		rep.Floor(rep.Counter(k) >= 10, "iterator hand-over rounds with the producer parked at db.iter.finish (%s): %d", s, rep.Counter(k))
 	}
 	rep.Floor(rep.Counter("big_histories") >= 3, "large batch/purge histories: %d", rep.Counter("big_histories"))
+	for _, be := range []string{"badger", "hashmap", "bbolt", "fstree"} {
+		rep.Floor(rep.Counter("wide_histories/"+be) >= 1, "wide histories (queries over 150-400 keys) on %s: %d", be, rep.Counter("wide_histories/"+be))
+	}
+	rep.Floor(rep.Counter("query_records_max") >= 150, "largest query result: %d records", rep.Counter("query_records_max"))
+	for _, m := range []string{"buffer", "slow", "prompt"} {
+		rep.Floor(rep.Counter("query_consume/"+m) >= 100, "queries consumed in mode %s: %d", m, rep.Counter("query_consume/"+m))
+	}
 	rep.Assume("clock: portbase and the harness read the same system clock; expiry values are now +-10^5 s except in the explicit expiry-transition steps, which are decided by comparing unix seconds read before/after the call (undecided if the call straddles the boundary)")
 	rep.Assume("the typed struct TestRec and its JSON form are the two record representations; conditions use only the documented operator/field-type pairings on root-level fields")
 	rep.Assume("file-tree backend: key sets prefix-free at path-segment boundaries, segments never '.', '..' or empty")
@@ -272,6 +293,8 @@ func childHist(dir string, cs childSpec, b *vlib.Batch) {
 			h = *cs.Replay
 		case cs.Mode == "big":
 			h = genBigHistory(cs.Seed, cs.Cfg, cs.Big)
+		case cs.Mode == "wide":
+			h = genWideHistory(cs.Seed, cs.Cfg, cs.First+n)
 		default:
 			h = genHistory(cs.Seed, cs.Cfg, cs.First+n, thorough)
 		}
@@ -281,6 +304,9 @@ func childHist(dir string, cs childSpec, b *vlib.Batch) {
 		if cs.Mode == "big" {
 			b.Count("big_histories", 1)
 			break
+		}
+		if cs.Mode == "wide" {
+			b.Count("wide_histories/"+cs.Cfg.Backend, 1)
 		}
 	}
 }
